@@ -29,6 +29,7 @@ ASSUMPTIONS = [
     "cases whose reference pipeline itself raises (e.g. variance normalisation of a single frame, deltas of an empty matrix) are outside the domain and discarded",
     "Kaldi wave tables need >= 1 sample; Kaldi stores a 0-row matrix as 0x0, so only the row count is compared there",
     "torch tool: STFT configurations with a filter that has no DFT bin are discarded (the torch module rejects empty filters by design)",
+    "--min-duration values are generated strictly between representable durations (an utterance lasting exactly the minimum is a float-comparison boundary the statement does not settle)",
     "multi-channel input always comes with an explicit --channel (the default for multi-channel input differs between the tools and is not part of the statement)",
 ]
 
@@ -421,6 +422,8 @@ def check_seed(case):
         spec = c["comp"]
         if gabor_degenerate(spec["bank"], _thr()) or gammatone_degenerate(spec["bank"], _thr()):
             raise Discard()
+        # same domain as the value clauses (e.g. no filter without a DFT bin for the torch tool)
+        _reference(dict(c, pre=[], post=[]), {})
     with tempfile.TemporaryDirectory(prefix="verif_c09_") as td:
         if case["tool"] == "kaldi":
             c["seed"] = case["seed"]
@@ -485,7 +488,7 @@ def _kaldi_cases(draw):
     syn = draw(st.sampled_from(["inline", "json", "yaml"]))
     return {
         "tool": "kaldi", "rate": rate, "comp": comp, "pre": draw(_pre_st), "post": draw(_post_st), "utts": utts,
-        "channel": channel, "min_duration": draw(st.sampled_from([0, 0, 0, 0.004, 0.02])),
+        "channel": channel, "min_duration": draw(st.sampled_from([0, 0, 0, 0.0042, 0.0203])),
         "syntax": syn, "other_syntax": draw(st.sampled_from([None, None, "inline", "json", "yaml"])),
         "alias_key": draw(st.sampled_from(["alias", "name"])), "seed": draw(st.one_of(st.none(), st.integers(0, 1000))),
     }
